@@ -71,9 +71,15 @@ type fakeConn struct {
 	id            int
 	local, remote ma.Multiaddr
 	closed        atomic.Bool
+	onLocal       atomic.Pointer[func()] // one-shot: runs inside the next LocalMultiaddr() call
 }
 
-func (c *fakeConn) LocalMultiaddr() ma.Multiaddr  { return c.local }
+func (c *fakeConn) LocalMultiaddr() ma.Multiaddr {
+	if f := c.onLocal.Swap(nil); f != nil {
+		(*f)()
+	}
+	return c.local
+}
 func (c *fakeConn) RemoteMultiaddr() ma.Multiaddr { return c.remote }
 func (c *fakeConn) IsClosed() bool                { return c.closed.Load() }
 func (c *fakeConn) ID() string                    { return fmt.Sprint("c", c.id) }
@@ -248,6 +254,28 @@ func (x *exec) run() *failure {
 				panic(err)
 			}
 		case "close":
+			if ev.Racing {
+				c := conns[ev.Conn]
+				var fired atomic.Bool
+				f := func() {
+					fired.Store(true)
+					c.closed.Store(true)
+					fn.disconnected(c)
+				}
+				c.onLocal.Store(&f)
+				if err := em.Emit(event.EvtPeerIdentificationCompleted{ObservedAddr: ev.RaceObs.multiaddr(), Conn: c}); err != nil {
+					panic(err)
+				}
+				synctest.Wait()
+				c.onLocal.Store(nil)
+				if fired.Load() {
+					if x.st != nil {
+						x.st["closes_placed_inside_a_report_being_processed"]++
+					}
+					break
+				}
+				// the report was dropped before the manager looked at the connection: plain close
+			}
 			conns[ev.Conn].closed.Store(true)
 			fn.disconnected(conns[ev.Conn])
 		case "redisconnect":
@@ -466,6 +494,9 @@ func (h *history) render(upto int) map[string]any {
 		if e.Kind == "report" {
 			s += " observed=" + e.Obs.String() + " [" + e.Class + "]"
 		}
+		if e.Kind == "close" && e.Racing {
+			s += " (while its report observed=" + e.RaceObs.String() + " is being processed: closed inside the manager's LocalMultiaddr() call)"
+		}
 		evs = append(evs, s)
 	}
 	var conns []string
@@ -638,6 +669,7 @@ func TestC17(t *testing.T) {
 		}
 	}
 	r.Require("histories_with_concurrent_readers", 20)
+	r.Require("closes_placed_inside_a_report_being_processed", 100)
 	r.Require("concurrent_reads_judged", 1000)
 }
 
